@@ -494,7 +494,84 @@ def _cases(rng: random.Random, tier: str):
         else:
             c["e"] = rand_event(rng, g, nodes, nmax=3, p_none=0.05, kmax=2)
         out.append(c)
+    # fifth round (gap review): factorisation of WIDE queries (>= 4 items over >= 4 distinct vertices) and of queries whose
+    # ancestral set holds a district of >= 3 vertices that is NOT a bidirected clique (chain A <-> B <-> C with the middle
+    # vertex an ancestor of the query: a factorisation that groups by bidirected NEIGHBOURHOOD instead of district splits it)
+    for _ in range(max(40, n_sem // 30)):
+        out.append(_wide_query_case(rng, models))
+    for _ in range(max(40, n_sem // 30)):
+        out.append(_chain_district_case(rng, models))
     return out
+
+
+def _wide_query_case(rng, models):
+    """4-5 items over distinct vertices of a 5-node graph (6 in one case of ten; <= 3 bidirected edges), one world or
+    plain variables mostly: outside the three known-finding classes, so the value oracle judges the factorisation"""
+    while True:
+        g = _scm_graph(rng, 6 if rng.random() < 0.1 else 5)
+        nodes = G.all_nodes(g)
+        if len(nodes) >= 5 and len(g["bi"]) <= 3:
+            break
+    k = rng.choice([4, 4, 5])
+    xs = [rng.choice(nodes)] if rng.random() < 0.5 else []
+    rest = [v for v in nodes if v not in xs]
+    rng.shuffle(rest)
+    ivs = [[x, "p" if rng.random() < 0.3 else "m"] for x in xs]
+    ev = []
+    for v in rest[:k]:
+        var = V(v, ivs if rng.random() < 0.85 else [])
+        # mostly base values: an outcome that is a parent of another outcome with value +P / None falls in the known class
+        # factorisation-value:outcome-parent-value, which would leave the case to the correspondence alone
+        ev.append([var, [v, "m"] if rng.random() < 0.85 else rand_value(rng, var, p_none=0.1)])
+    op = rng.choice(["factorize", "factorize", "simplify_factorize", "factorize_classes", "sem_values"])
+    return {"op": op, "g": g, "e": ev, "seed": rng.randrange(1 << 30), "models": 1 if op == "sem_values" else models,
+            "malformed": False, "stream": "wide_query"}
+
+
+def _chain_district_case(rng, models):
+    """a chain district A <-> B <-> C (optionally <-> D) inside An(query): every chain vertex has a directed path to the
+    query variable Y; further vertices / edges at random; the query is Y (optionally with a subscript on a non-chain
+    vertex, optionally a second item on a chain vertex)"""
+    n = rng.choice([4, 5, 5])
+    lab = rng.sample(range(6), n)
+    chain, y = lab[: n - 1] if n == 4 or rng.random() < 0.4 else lab[: 3], lab[-1]
+    extra = [v for v in lab if v not in chain and v != y]
+    bi = [[chain[i], chain[i + 1]] for i in range(len(chain) - 1)]
+    di = []
+    for i, a in enumerate(chain):
+        r = rng.random()
+        if r < 0.6 or i == len(chain) - 1:
+            di.append([a, y])
+        else:
+            di.append([a, chain[i + 1]])       # reaches Y through the next chain vertex
+    for z in extra:
+        r = rng.random()
+        if r < 0.4:
+            di.append([z, rng.choice(chain)])
+        elif r < 0.7:
+            di += [[rng.choice(chain), z], [z, y]]
+        else:
+            di.append([z, y])
+    if rng.random() < 0.2:
+        bi.append([chain[-1], y])
+    g = {"nodes": [], "di": di, "bi": bi}
+    ivs = [[z, rng.choice("mp")] for z in extra if rng.random() < 0.3]
+    yv = V(y, ivs)
+    ev = [[yv, rand_value(rng, yv, p_none=0.0)]]
+    if rng.random() < 0.4:
+        a = rng.choice(chain)
+        av = V(a, [i for i in ivs])
+        ev.append([av, [a, "m"] if rng.random() < 0.8 else rand_value(rng, av, p_none=0.0)])
+    op = rng.choice(["factorize", "factorize", "simplify_factorize", "factors", "factorize_classes", "sem_values"])
+    c = {"op": op, "g": g, "seed": rng.randrange(1 << 30), "models": 1 if op == "sem_values" else models,
+         "malformed": False, "stream": "chain_district"}
+    if op == "factors":
+        # the ancestral set in ctf-factor form, as do_counterfactual_factor_factorization passes it
+        names = set(chain) | {y}
+        c["vs"] = [S_convert(g, V(v)) for v in sorted(names)]
+    else:
+        c["e"] = ev
+    return c
 
 
 def S_convert(g, v):
